@@ -3,6 +3,8 @@ package worlds
 import (
 	"encoding/json"
 	"fmt"
+	"github.com/jech/galene/group"
+	"os"
 	"time"
 
 	"verif/simrt"
@@ -197,6 +199,8 @@ func runChat(c *Ctx, plan any) {
 		all    bool
 		userId string
 		id     string
+		// executed: the server certainly carried it out (see below)
+		executed bool
 	}
 	var clears []*clearRec
 	// group membership changes seen by the server (joined messages tell us)
@@ -248,6 +252,10 @@ func runChat(c *Ctx, plan any) {
 					return
 				}
 				cl.all = cl.userId == "" && cl.id == ""
+				// a message that claims another username than the one the
+				// server knows (the client has not yet been told its new
+				// name after a re-join) is rejected as a spoof: no effect
+				cl.executed = h.Username == nil || *h.Username == h.Before.Username
 				clears = append(clears, cl)
 			}
 		}
@@ -332,6 +340,18 @@ func runChat(c *Ctx, plan any) {
 		return
 	}
 	endAt := time.Now()
+	if os.Getenv("VERIF_C15_DEBUG") != "" {
+		for _, h := range w.handledL {
+			fmt.Fprintf(os.Stderr, "C15 handled %d..%d %s %s/%s value=%v before=%+v after=%+v err=%v\n", h.Enter, h.Exit, h.Client.id, h.Type, h.Kind, h.Value, h.Before, h.After, h.Err)
+		}
+		for _, gg := range p.Groups {
+			if g := group.Get(gg.Name); g != nil {
+				for _, e := range g.GetChatHistory() {
+					fmt.Fprintf(os.Stderr, "C15 history of %s: id=%q source=%q value=%v\n", gg.Name, e.Id, e.Source, e.Value)
+				}
+			}
+		}
+	}
 	// delivery completeness and exclusivity for broadcasts
 	for _, cr := range chatOrder {
 		if !cr.accepted || cr.typ != "chat" && cr.typ != "usermessage" {
@@ -452,7 +472,7 @@ func runChat(c *Ctx, plan any) {
 					continue
 				}
 				matches := cl.all || (cl.userId == storedSource(cr) && (cl.id == "" || cl.id == cr.id))
-				if matches && cr.h.Exit < cl.h.Enter && cl.h.Exit < lastJoinSent {
+				if matches && cl.executed && cr.h.Exit < cl.h.Enter && cl.h.Exit < lastJoinSent {
 					c.Violation("C15.history-not-cleared", "client %s was sent (at %d) history entry %q (stored at %d) although a clearchat covering it (handled at %d..%d) completed before its join (handled from %d)", sc.id, rm.Stamp, cr.value, cr.h.Exit, cl.h.Enter, cl.h.Exit, lastJoinSent)
 					return
 				}
